@@ -96,6 +96,10 @@ package rtpbuffer
 //@   modifies *
 //@   ensures too_big: len(payload) > 1460 ==> result0 == nil && result1 != nil
 //@   ensures ok_or_error: (result0 == nil) <==> (result1 != nil)
+//@   # refused only when it cannot be stored: too large, or (RTX form) legacy in-payload padding that claims more than the payload holds;
+//@   # in particular a packet that is all padding is kept
+//@   ensures accepts: (result1 == nil) <==> (len(payload) <= 1460 && !(rtxSsrc != 0 && rtxPayloadType != 0 && old(header.Padding) && old(header.PaddingSize) == 0
+//@        && len(payload) > 0 && int(old(payload[len(payload) - 1])) > len(payload)))
 //@   ensures fresh_packet: result0 != nil ==> fresh(result0) && result0.count == 1 && result0.sequenceNumber == header.SequenceNumber
 //@   ensures private_header: result0 != nil ==> result0.header != nil && result0.header != header && fresh(result0.header)
 //@   ensures private_payload: result0 != nil && payload != nil ==> !sameblock(result0.payload, payload)
